@@ -104,7 +104,8 @@ class Body:
         self.path = raw["path"]
         self.key = crate + "::" + raw["path"]
         self.name = raw.get("name", "")
-        self.def_kind = raw["def_kind"]
+        # promoted constants are bodies of their own; they must never be taken for the function they were promoted from
+        self.def_kind = raw["def_kind"] if "::promoted[" not in raw["path"] else "Promoted"
         self.blocks = raw["blocks"]
         self.locals = raw["locals"]
         self.arg_count = raw["arg_count"]
